@@ -199,7 +199,7 @@ def run(tier, replay=None):
         if tier == "thorough":
             d5 = tlc_generate("Gen_DeadCode", cfg="Gen_DeadCode5", heap="8g", timeout=3000)
             out.add_tlc(d5[1])
-            dead += [c["text"] for i, c in enumerate(d5[0]) if i % 3 == seed() % 3]
+            dead += [c["text"] for i, c in enumerate(d5[0]) if i % 12 == seed() % 12]      # 17^5 regions: every 12th
         light = set(dead) - set(texts)
         texts += sorted(light)
         texts += [json.dumps(f, sort_keys=True) for f in corpus.TWIN_FILES]      # multi-file inputs travel as JSON text
